@@ -6,6 +6,7 @@ set -u
 WT="$1"; DIFF="$2"; DEMO="$3"
 export GOPROXY=off GOFLAGS=
 cd "$WT" || exit 2
+L=$(mktemp -d /tmp/vm.XXXXXX); trap 'rm -rf "$L"' EXIT
 git checkout -q -- . ; git clean -fdq -e '*.diff' -e '*.txt' -e 'mutant*' -e 'demo*' . >/dev/null 2>&1
 pkg=$(head -1 "$DEMO" | sed -n 's/^\/\/ *place in: *//p' | tr -d ' \r')
 [ -z "$pkg" ] && { echo "NO-PLACE-LINE"; exit 2; }
@@ -14,13 +15,13 @@ tests=$(grep -o '^func Test[A-Za-z0-9_]*' "$DEMO" | sed 's/^func //' | paste -sd
 name="zz_demo_$(basename "$DEMO" .txt | tr -c 'a-zA-Z0-9_' '_')_test.go"
 # 1. demo on the unmodified tree
 cp "$DEMO" "$pkg/$name"
-if go test -vet=off -count=1 -run "^($tests)\$" "./$pkg/" >/tmp/vm_clean.log 2>&1; then echo "demo-on-clean: PASS"; else echo "demo-on-clean: FAIL (should pass)"; tail -15 /tmp/vm_clean.log; fi
+if go test -vet=off -count=1 -run "^($tests)\$" "./$pkg/" >$L/vm_clean.log 2>&1; then echo "demo-on-clean: PASS"; else echo "demo-on-clean: FAIL (should pass)"; tail -15 $L/vm_clean.log; fi
 rm -f "$pkg/$name"
 # 2. apply the mutant
 if ! git apply "$DIFF"; then echo "APPLY-FAILED"; exit 2; fi
-if go build ./... >/tmp/vm_build.log 2>&1 && (cd simapp && go build ./... >>/tmp/vm_build.log 2>&1); then echo "build: OK"; else echo "build: FAILED"; tail -5 /tmp/vm_build.log; fi
-if go test -vet=off -count=1 ./... >/tmp/vm_suite.log 2>&1; then echo "suite-with-mutant: PASS"; else echo "suite-with-mutant: FAIL"; grep -E "^(---|FAIL|ok)" /tmp/vm_suite.log | grep -v "^ok" | head; fi
+if go build ./... >$L/vm_build.log 2>&1 && (cd simapp && go build ./... >>$L/vm_build.log 2>&1); then echo "build: OK"; else echo "build: FAILED"; tail -5 $L/vm_build.log; fi
+if go test -vet=off -count=1 ./... >$L/vm_suite.log 2>&1; then echo "suite-with-mutant: PASS"; else echo "suite-with-mutant: FAIL"; grep -E "^(---|FAIL|ok)" $L/vm_suite.log | grep -v "^ok" | head; fi
 cp "$DEMO" "$pkg/$name"
-if go test -vet=off -count=1 -run "^($tests)\$" "./$pkg/" >/tmp/vm_mut.log 2>&1; then echo "demo-on-mutant: PASS (should fail)"; else echo "demo-on-mutant: FAIL (as expected)"; fi
+if go test -vet=off -count=1 -run "^($tests)\$" "./$pkg/" >$L/vm_mut.log 2>&1; then echo "demo-on-mutant: PASS (should fail)"; else echo "demo-on-mutant: FAIL (as expected)"; fi
 rm -f "$pkg/$name"
 git checkout -q -- .
